@@ -530,5 +530,5 @@ def main(tier, seed):
     # level-2 evaluation for all path lengths and pixel counts (checks/l2sym.py): every position and orientation path restored (length and every entry) on every normal path
     from checks import l2sym
 
-    l2sym.report_fails(rep, l2sym.run(rep, tier, fams=['C', 'E'], stride={'C': 2}))
+    l2sym.report_fails(rep, l2sym.run(rep, tier, fams=['C', 'E'], stride={'C': 2}, faults=True))
     return rep.finish()
